@@ -162,7 +162,7 @@ func RunGenerator(g GenDesc) (out modeling.Mesh, class string, msg string) {
 	default:
 		panic("meshgen: unknown generator " + g.Gen)
 	}
-	return out, class, ""
+	return out, class, msg
 }
 
 func marchField(f marching.Field, g GenDesc) modeling.Mesh {
@@ -205,6 +205,11 @@ func GenCase(g GenDesc) hx.Case {
 		c.FailKey = "circle:zero-sides" // fixes/C02-circle-zero-sides
 	}
 	m, class, msg := RunGenerator(g)
+	if class != "ok" && admissible(g) {
+		// inside the documented domain the generator must return a mesh: a panic here is not a
+		// "rejected parameterisation"
+		c.GoFail = fmt.Sprintf("generator %s failed on an admissible parameterisation (%s): %s", g.Gen, class, msg)
+	}
 	names := NewNames()
 	var outs []Desc
 	if class == "ok" {
@@ -214,7 +219,7 @@ func GenCase(g GenDesc) hx.Case {
 		}
 		// keep the Coq literals small: a mesh above the cap is judged here with the same test
 		// (recorded as a harness-side failure if ill-formed) and rendered without its indices
-		if len(p.Idx) > 6000 || p.NVerts() > 3000 {
+		if len(p.Idx) > 4000 || p.NVerts() > 2500 {
 			if !wfDesc(p) {
 				c.GoFail = fmt.Sprintf("generator %s returned an ill-formed mesh (%d indices, %d vertices)", g.Gen, len(p.Idx), p.NVerts())
 			}
@@ -230,6 +235,25 @@ func GenCase(g GenDesc) hx.Case {
 	kb, _ := json.Marshal(g)
 	c.Key = "gen|" + string(kb)
 	return c
+}
+
+// admissible: parameterisations every generator documents as valid (its own guards accept them).
+func admissible(g GenDesc) bool {
+	switch g.Gen {
+	case "uvsphere", "uvsphere_unwelded", "hemisphere":
+		return geti(g, 0) >= 2 && geti(g, 1) >= 3
+	case "circle", "cone", "cylinder":
+		return geti(g, 0) >= 3
+	case "cube_welded", "cube_quads", "quad":
+		return true
+	case "extrude_polygon", "extrude_circle":
+		return geti(g, 0) >= 3 && len(g.P) >= 6
+	case "extrude_line":
+		return len(g.P) >= 6
+	case "repeat_circle", "repeat_line", "repeat_fibonacci":
+		return geti(g, 0) >= 1 && geti(g, 1) != 4
+	}
+	return false
 }
 
 // wfDesc: harness-side copy of wfb, used only for meshes too large to be rendered as Coq literals.
@@ -282,8 +306,8 @@ func randShape(r *hx.Rng, n int) []float64 {
 // negative ones included, occasionally larger.
 func RandomGen(r *hx.Rng, big bool) GenDesc {
 	g := GenDesc{Gen: hx.Pick(r, GenKinds)}
-	if len(g.Gen) > 8 && g.Gen[:8] == "marching" && !big && r.Chance(1, 2) {
-		g.Gen = hx.Pick(r, GenKinds[:17]) // marching is the costly generator: half as often in a quick run
+	if len(g.Gen) > 8 && g.Gen[:8] == "marching" && (r.Chance(1, 2) || (big && r.Chance(2, 3))) {
+		g.Gen = hx.Pick(r, GenKinds[:17]) // marching is the costly generator: drawn less often
 	}
 	small := func() int {
 		switch r.Intn(12) {
@@ -291,7 +315,7 @@ func RandomGen(r *hx.Rng, big bool) GenDesc {
 			return r.Range(-2, 1)
 		case 1:
 			if big {
-				return r.Range(13, 40)
+				return r.Range(13, 26)
 			}
 			return r.Range(9, 14)
 		}
@@ -364,6 +388,32 @@ func SmallGens(max int) []GenDesc {
 		}
 	}
 	return out
+}
+
+// FixedGens: corner parameterisations run on every invocation (smallest accepted counts, the counts
+// just below, the zero-sided circle of fixes/C02-circle-zero-sides, empty inputs).
+func FixedGens(run *hx.Run) {
+	for _, g := range []GenDesc{
+		{Gen: "circle", I: []int{0}}, {Gen: "circle", I: []int{1}}, {Gen: "circle", I: []int{3}, B: []bool{true}},
+		{Gen: "cone", I: []int{2}}, {Gen: "cone", I: []int{3}},
+		{Gen: "cylinder", I: []int{0}}, {Gen: "cylinder", I: []int{3}, B: []bool{true, true, true}}, {Gen: "cylinder", I: []int{3}, B: []bool{false, false, true}},
+		{Gen: "uvsphere", I: []int{2, 3}}, {Gen: "uvsphere", I: []int{1, 3}}, {Gen: "uvsphere", I: []int{2, 2}},
+		{Gen: "uvsphere_unwelded", I: []int{2, 3}}, {Gen: "hemisphere", I: []int{2, 3}, B: []bool{true}},
+		{Gen: "cube_welded", B: []bool{true}}, {Gen: "cube_quads", B: []bool{true}}, {Gen: "quad", B: []bool{true}},
+		{Gen: "extrude_polygon", I: []int{3}, P: []float64{0, 0, 0, 0, 1, 0}, B: []bool{true}},
+		{Gen: "extrude_polygon", I: []int{3}, P: []float64{0, 0, 0}},
+		{Gen: "extrude_line", P: []float64{0, 0, 0, 0, 1, 0}, F: []float64{1, 0}},
+		{Gen: "extrude_shape", P: []float64{0, 0, 0, 0, 1, 0, 1, 2, 0}, P2: []float64{0, 0, 1, 0, 0, 1}},
+		{Gen: "extrude_closed_shape", P: []float64{0, 0, 0, 0, 1, 0, 1, 2, 0}, P2: []float64{0, 0, 1, 0, 0, 1}},
+		{Gen: "repeat_circle", I: []int{0, 0}}, {Gen: "repeat_circle", I: []int{3, 4}}, {Gen: "repeat_line", I: []int{2, 3}},
+		{Gen: "marching_sphere", I: []int{2, 1}, F: []float64{1, 0, 5}}, // cutoff above the field: nothing crosses
+		{Gen: "marching_sphere", I: []int{2, 0}, F: []float64{1, 0, 0}},
+		{Gen: "bowyer_watson"}, {Gen: "bowyer_watson", P2: []float64{0, 0, 1, 0, 0, 1}},
+		{Gen: "bowyer_watson", P2: []float64{0, 0, 4, 0.1, 0.2, 3, 3.9, 4.2, 2, 2.1}},
+	} {
+		run.Count("gen:" + g.Gen)
+		run.Add(GenCase(g))
+	}
 }
 
 // Generators adds n generator cases: a rotating window of the exhaustive small stream plus random ones.
